@@ -43,7 +43,30 @@ class Taps(object):
         enc = self.enc
         taps = self
         ESW, EFW = enc.EncryptedSocketWrapper, enc.EncryptedFileObjectWrapper
-        self.saved = (ESW.__init__, ESW.send, ESW.recv, EFW.__init__, EFW.read, enc.os)
+        import os as _os
+        import random as _random
+        self.saved = (ESW.__init__, ESW.send, ESW.recv, EFW.__init__, EFW.read, _os.urandom)
+        real_urandom = _os.urandom
+
+        def tap_urandom(n):
+            b = real_urandom(n)
+            taps.urandom.append(bytes(b))
+            return b
+        # the system entropy source, wherever the library reaches it from: os.urandom itself, random's reference to it
+        # (SystemRandom / secrets), and any name in the encryption module bound to the original function
+        self.rebound = [(_os, 'urandom', real_urandom)]
+        _os.urandom = tap_urandom
+        if getattr(_random, '_urandom', None) is real_urandom:
+            self.rebound.append((_random, '_urandom', real_urandom))
+            _random._urandom = tap_urandom
+        for name, val in list(vars(enc).items()):
+            if val is real_urandom:
+                self.rebound.append((enc, name, real_urandom))
+                setattr(enc, name, tap_urandom)
+        # every deterministic generator the process offers is put into the same state before each login: a secret
+        # derived from such state would repeat (DistinctSecrets)
+        self.rnd_state = _random.getstate()
+        _random.seed(20260927)
 
         class TapSock(object):
             def __init__(self, real, log):
@@ -104,21 +127,16 @@ class Taps(object):
             return r
         ESW.__init__, ESW.send, ESW.recv, EFW.__init__, EFW.read = s_init, s_send, s_recv, f_init, f_read
 
-        class OsProxy(object):
-            def urandom(self_, n):
-                b = taps.saved[5].urandom(n)
-                taps.urandom.append(bytes(b))
-                return b
-
-            def __getattr__(self_, a):
-                return getattr(taps.saved[5], a)
-        enc.os = OsProxy()
         return self
 
     def __exit__(self, *a):
         enc = self.enc
         ESW, EFW = enc.EncryptedSocketWrapper, enc.EncryptedFileObjectWrapper
-        ESW.__init__, ESW.send, ESW.recv, EFW.__init__, EFW.read, enc.os = self.saved
+        ESW.__init__, ESW.send, ESW.recv, EFW.__init__, EFW.read = self.saved[:5]
+        for mod, name, val in self.rebound:
+            setattr(mod, name, val)
+        import random as _random
+        _random.setstate(self.rnd_state)
         return False
 
 
@@ -382,7 +400,7 @@ def run(chk):
             if distinct_failed and not r.violated:
                 why, key = 'two logins of the run used the same shared secret', 'cipher:secret-reused'
             elif r.violated and r.violated[0] == 'SecretsReachServer':
-                why = 'the secret is not the single os.urandom(16) draw, or secret / token are not well-formed PKCS#1 v1.5 blocks under the server key'
+                why = 'the secret is not a 16-byte draw from the system entropy source made during the login, or secret / token are not well-formed PKCS#1 v1.5 blocks under the server key'
                 key = 'cipher:secrets-reach-server'
             else:
                 why = m2.group(1) if m2 and m2.group(1) else str(r.violated)
@@ -398,7 +416,7 @@ def run(chk):
     chk.extra['bytes_recomputed_by_tla_aes'] = total_bytes
     chk.extra['logins'] = n_login
     chk.extra['direct_wrapper_runs'] = n_direct
-    chk.assumptions += ['RSA private-key exponentiation is Python pow(); "fresh random" is checked as source (one os.urandom(16) per login), '
+    chk.assumptions += ['RSA private-key exponentiation is Python pow(); "fresh random" is checked as source (a 16-byte draw from os.urandom, tapped at os, random._urandom and names bound in the module) and as distinctness over all logins with the global random generator re-seeded identically before each, '
                         'use (that value keys both directions) and distinctness', 'the AES block primitive of the peer is checked here through '
                         'the receive direction: the peer encrypts, the wrapper decrypts, TLC recomputes both']
     return chk.finish(
